@@ -1370,7 +1370,11 @@ func ruleR34(c *Ctx) {
 						usesClock = true
 						at = x
 					}
-					if fn.Pkg().Path() == "crypto/rand" || fn.Pkg().Path() == "sync/atomic" {
+					if fn.Pkg().Path() == "crypto/rand" {
+						usesState = true
+					}
+					// a process-wide sequence: only an atomic operation that CHANGES the state makes two calls differ
+					if fn.Pkg().Path() == "sync/atomic" && (strings.HasPrefix(fn.Name(), "Add") || strings.HasPrefix(fn.Name(), "Swap") || strings.HasPrefix(fn.Name(), "CompareAndSwap")) {
 						usesState = true
 					}
 					// math/rand top-level functions use the shared, process-wide source
@@ -1381,6 +1385,11 @@ func ruleR34(c *Ctx) {
 			case *ast.Ident:
 				if v, ok := in.Uses[x].(*types.Var); ok && v.Parent() == v.Pkg().Scope() && !v.IsField() {
 					// a package-level variable (state that persists between calls); constant tables don't count
+					// — and neither does a variable that no function ever writes (a value fixed at start-up, such
+					// as the process id, is the same for every call)
+					if !writtenPkgVars(p)[v] {
+						return true
+					}
 					if _, isBasicOrArr := v.Type().Underlying().(*types.Basic); isBasicOrArr {
 						usesState = true
 					} else if n := namedOf(v.Type()); n != nil {
@@ -1414,6 +1423,72 @@ func ruleR34(c *Ctx) {
 		}
 		c.Check(usesState, f, at, "identifier source "+f.Obj.Name(), "a function that mints identifiers must mix in state that persists between calls (a process-wide sequence or shared PRNG) or crypto/rand; a result that depends only on time.Now() repeats whenever two calls see the same clock reading", fmt.Sprintf("reads the clock; persistent state or crypto/rand involved: %v", usesState))
 	}
+}
+
+var writtenPkgVarsCache map[*Prog]map[*types.Var]bool
+
+// writtenPkgVars: package-level variables that some function body writes (assignment, ++/--, address taken for an
+// atomic or any other call, method call on the variable itself).
+func writtenPkgVars(p *Prog) map[*types.Var]bool {
+	if writtenPkgVarsCache == nil {
+		writtenPkgVarsCache = map[*Prog]map[*types.Var]bool{}
+	}
+	if m, ok := writtenPkgVarsCache[p]; ok {
+		return m
+	}
+	m := map[*types.Var]bool{}
+	isPkgVar := func(in *types.Info, e ast.Expr) *types.Var {
+		id, ok := unparen(e).(*ast.Ident)
+		if !ok {
+			return nil
+		}
+		v, ok := in.Uses[id].(*types.Var)
+		if !ok || v.IsField() || v.Pkg() == nil || v.Parent() != v.Pkg().Scope() {
+			return nil
+		}
+		return v
+	}
+	for _, f := range p.Funcs {
+		if f.Body == nil {
+			continue
+		}
+		in := info(f)
+		ast.Inspect(f.Body, func(n ast.Node) bool {
+			switch x := n.(type) {
+			case *ast.AssignStmt:
+				for _, l := range x.Lhs {
+					if v := isPkgVar(in, l); v != nil {
+						m[v] = true
+					}
+				}
+			case *ast.IncDecStmt:
+				if v := isPkgVar(in, x.X); v != nil {
+					m[v] = true
+				}
+			case *ast.UnaryExpr:
+				if x.Op == token.AND {
+					if v := isPkgVar(in, x.X); v != nil {
+						m[v] = true
+					}
+				}
+			case *ast.CallExpr:
+				if sel, ok := unparen(x.Fun).(*ast.SelectorExpr); ok {
+					if v := isPkgVar(in, sel.X); v != nil {
+						if fn := callee(in, x); fn != nil && recvNamed(fn) != nil {
+							if sig := fn.Type().(*types.Signature); sig.Recv() != nil {
+								if _, ptr := sig.Recv().Type().(*types.Pointer); ptr {
+									m[v] = true
+								}
+							}
+						}
+					}
+				}
+			}
+			return true
+		})
+	}
+	writtenPkgVarsCache[p] = m
+	return m
 }
 
 // withSamePkgCallees returns f and the declared functions of f's package that it calls (transitively, depth-bounded).
